@@ -354,3 +354,22 @@ def deriv_at_unit(scaled):
 
 deriv_at_unit(False)
 deriv_at_unit(True)
+
+
+@unit("C13.StepResult.diff", ["C13", "C15"], ["pygradflow.step.solver.step_solver.StepResult.diff", "pygradflow.util.norm_mult"], config={"max_paths": 20})
+def step_result_diff(u):
+    """StepResult.diff (the step length used by the distance-ratio controller and the display) is the 2-norm of
+    the stacked step (dx, dy): diff^2 == |dx|^2 + |dy|^2, diff >= 0"""
+    from pyvc import npmodel
+    from .models import _fresh_vec
+
+    params, problem, orig = setup(u, "orig")
+    n, m = problem.fields["__n__"], problem.fields["num_cons"]
+    dx, dy = _fresh_vec(u.it, "dx", n), _fresh_vec(u.it, "dy", m)
+    sr = u.obj("pygradflow.step.solver.step_solver.StepResult", orig_iterate=orig, dx=dx, dy=dy, active_set=None, rcond=None)
+    diff = u.get(sr, "diff")
+    sx, sy = npmodel.np_dot(u.it, dx, dx), npmodel.np_dot(u.it, dy, dy)
+    u.ensure(diff >= 0, "diff>=0")
+    u.ensure(diff * diff == sx + sy, "diff^2==dx.dx+dy.dy")
+    u.canary(diff * diff == sx, "diff_ignores_the_multiplier_step")
+    u.cover("end")
